@@ -11,12 +11,17 @@ Tie        : translator/gen_path.py (fail-closed golden shapes + regenerated con
                listing   LocalStorageBackend.list_files         vs list_files
                realpath  os.path.realpath (the modelled stdlib)  vs realpath
                kernel    O_PATH + /proc/self/fd (the real kernel) vs kwalk
+               scans     the directories list_files hands to os.scandir (audit hook) vs list_scans
                entrypoints  audited OS calls of the real entry points vs run_entry (outcome class + locations)
                rand-*    the same on random symlink arrangements (multi-link cycles, dangling, absolute/relative)
              over the exhaustive path grammar x root spelled directly / through a symlink / relatively.
 Oracle /   : implementation-only entry-point audit (harness/lib/pathaudit.py): every storage / read entry
 search       point x the grammar under sys.addaudithook; kernel-judged locations must lie under the
-             canonical root, the tree outside the root keeps its fingerprint, kernel-escaping paths raise.
+             canonical root (touch), the tree outside the root keeps its fingerprint (sentinel), kernel-escaping
+             paths raise (reject), a listing returns only entries under the root (listed), and every call
+             returns within its time / memory limit (runaway; harness/lib/bounded.py).  Two arrangements:
+             pathfs.standard_spec (symlink cycles included) and pathfs.acyclic_spec (cycle-free, outward /
+             inward / sibling directory links at depth >= 1 below the prefixes that get listed).
 """
 from __future__ import annotations
 
@@ -58,13 +63,16 @@ MANIFEST_ENTRY = {
                   "(C17_realpath_agrees_with_kernel), so a string the kernel resolves outside the root is Err Security "
                   "(C17_kernel_outside_rejected, C17_reject_outside) and an answer is never some other file "
                   "(C17_resolve_is_kernel_location); likewise _get_arrow_path's three-way split (C17_arrow_inside); list_files yields "
-                  "only '..'-free names of files below the resolved prefix (C17_listing_relative); every entry point of the table "
+                  "only '..'-free names of files below the resolved prefix (C17_listing_relative) and scans only real, link-free "
+                  "directories at or below it -- never through a directory link, inward or outward (C17_listing_scans_inside); every entry point of the table "
                   "regenerated from the source hands the OS only its guard's result or that result's parent (C17_entrypoints); "
                   "commonpath containment is component-wise prefix (C17_commonpath_prefix); fuel = number of links suffices "
                   "(C17_fuel_sufficient); the resolver as found is refuted by a concrete tree (C17_legacy_resolver_refuted). Model tied "
                   "to the code by golden-shape / taint translation of the guards and by differential execution against real symlink "
                   "trees (resolver, arrow path, listing, realpath, kernel, entry points) over the exhaustive path grammar; "
-                  "implementation-only OS-call audit of 26 entry points searches for a failing input",
+                  "implementation-only OS-call audit of 30 entry points over two arrangements (one with symlink cycles, one cycle-free with "
+                  "outward directory links below the listed prefixes) searches for a failing input; every library call is bounded (time, "
+                  "memory, hard limit, external monitor) so that a non-terminating change is reported as a violation with its input",
     "level_note": "trusted: Coq kernel; translator/gen_path.py; the model of posixpath.realpath/commonpath/relpath and of the kernel "
                   "walk (validated on every run against CPython 3.12 and the running kernel); the audit harness (sys.addaudithook sees "
                   "Python-level OS calls only); not modelled: time-of-check/time-of-use races, hard links, mount points, the S3 "
@@ -816,9 +824,9 @@ def run(ctx) -> None:
             stages[name] = [round(_time.time() - t0, 1), round(_time.process_time() - c0, 1)]     # wall, CPU of this process
             ctx.stats["stage_seconds"] = stages
     ws_probe = os.path.realpath(ctx.scratch)
-    audit_strings = strings_for(ctx, os.path.join(ws_probe, "ws-storage"), 3 if quick else 4, 120 if quick else 3500)
+    audit_strings = strings_for(ctx, os.path.join(ws_probe, "ws-storage"), 3 if quick else 4, 120 if quick else 2500)
     obs_ws, obs = staged('audit_storage', lambda: oracle_storage(ctx, audit_strings))
-    table_strings = strings_for(ctx, os.path.join(ws_probe, "ws-table"), 3, 0 if quick else 600)
+    table_strings = strings_for(ctx, os.path.join(ws_probe, "ws-table"), 3, 0 if quick else 400)
     if quick:
         table_strings = table_strings[::4]
     staged('audit_acyclic', lambda: oracle_acyclic(ctx, 2 if quick else 3))
